@@ -51,31 +51,32 @@ def sets_for(tier, seed):
     else:
         for fam in ("KQK", "KRK", "KBK", "KNK"):
             s.append((fam.lower(), K(fam, 999, 0, lemmas=1), "bfs", None))
-        s.append(("kpk", K("KPK", 999, 0, lemmas=1), "bfs", None))
+        s.append(("kpk-d1", K("KPK", 1, 0, lemmas=1), "bfs", None))
         s.append(("roots-d3", K("ROOTS", 3, 0, lemmas=1), "bfs", None))
-        s.append(("epw", K("EPw", 3, 0, lemmas=1), "bfs", None))
-        s.append(("epb", K("EPb", 3, 0, lemmas=1), "bfs", None))
+        s.append(("epw", K("EPw", 2, 0, lemmas=1), "bfs", None))
+        s.append(("epb", K("EPb", 2, 0, lemmas=1), "bfs", None))
         s.append(("epallw", K("EPALLw", 3, 0, lemmas=1), "bfs", None))
         s.append(("epallb", K("EPALLb", 3, 0, lemmas=1), "bfs", None))
         s.append(("ep2w", K("EP2w", 1, 0, lemmas=1), "bfs", None))
         s.append(("ep2b", K("EP2b", 1, 0, lemmas=1), "bfs", None))
         s.append(("epxw", K("EPXw", 1, 0), "bfs", None))
         s.append(("epxb", K("EPXb", 1, 0), "bfs", None))
-        s.append(("castle", K("CASTLE", 2, 0), "bfs", None))
-        s.append(("pinw", K("PINw", 1, 0, lemmas=1), "bfs", None))
-        s.append(("pinb", K("PINb", 1, 0, lemmas=1), "bfs", None))
+        s.append(("castle", K("CASTLE", 1, 0), "bfs", None))
+        s.append(("pinw", K("PINw", 0, 0, lemmas=1), "bfs", None))
+        s.append(("pinb", K("PINb", 0, 0, lemmas=1), "bfs", None))
         s.append(("rand-%d" % seed, K("RAND", 999, 8), "sim", {"num": 1500, "depth": 30, "seed": seed}))
-        s.append(("rand6-%d" % seed, K("RAND", 999, 5), "sim", {"num": 1000, "depth": 40, "seed": seed + 1}))
+        s.append(("rand5-%d" % seed, K("RAND", 999, 5), "sim", {"num": 1000, "depth": 40, "seed": seed + 1}))
         s.append(("kpk7w", K("KPK7w", 2, 0, lemmas=1), "bfs", None))
         s.append(("kpk7b", K("KPK7b", 2, 0, lemmas=1), "bfs", None))
         s.append(("sim-%d" % seed, K("ROOTS", 999, 0), "sim", {"num": 400, "depth": 250, "seed": seed}))
         s.append(("lemma2-roots-d2", K("ROOTS", 2, 0, lemmas=2, emit=False), "bfs", None))
         s.append(("lemma2-castle", K("CASTLE", 1, 1, lemmas=2, emit=False), "bfs", None))
         s.append(("lemma2-epw", K("EPw", 2, 4, lemmas=2, emit=False), "bfs", None))
-        s.append(("lemma2-epxw", K("EPXw", 1, 0, lemmas=2, emit=False), "bfs", None))
-        s.append(("lemma2-epxb", K("EPXb", 1, 0, lemmas=2, emit=False), "bfs", None))
+        s.append(("lemma2-epxw", K("EPXw", 1, 2, lemmas=2, emit=False), "bfs", None))
+        s.append(("lemma2-epxb", K("EPXb", 1, 6, lemmas=2, emit=False), "bfs", None))
+        s.append(("lemma2-ep2w", K("EP2w", 1, 0, lemmas=2, emit=False), "bfs", None))
         s.append(("lemma2-pinw", K("PINw", 0, 0, lemmas=2, emit=False), "bfs", None))
-        s.append(("lemma2-kpk7b", K("KPK7b", 1, 0, lemmas=2, emit=False), "bfs", None))
+        s.append(("lemma2-kpk7b", K("KPK7b", 0, 0, lemmas=2, emit=False), "bfs", None))
     return s
 
 
